@@ -94,7 +94,7 @@ type Handle struct {
 	Counted     bool // handed to the session as a real entry
 	Exempt      bool // release accounting does not apply (see sessfs: failed create-directory corner)
 
-	Origin    *Call // the call that created this handle
+	Origin *Call // the call that created this handle
 
 	releases  int32
 	ReleaseBy string
@@ -333,7 +333,18 @@ func (h *Handle) OpenDir(ctx context.Context) (p9p.ReadNext, error) {
 		dirs = append(dirs, h.Node.Children[k].Stat())
 	}
 	batch := fs.ListBatch
+	var inIter int32
 	return func(ctx context.Context) ([]p9p.Dir, error) {
+		// the iterator belongs to the open file of one fid: calls must not overlap
+		if n := atomic.AddInt32(&inIter, 1); n > 1 {
+			fs.violate("overlapping calls on the directory iterator of handle %d", h.ID)
+		}
+		defer atomic.AddInt32(&inIter, -1)
+		if hook := fs.Hook; hook != nil {
+			hook(&Call{Op: "readnext", Handle: h, Ctx: ctx})
+		}
+		fs.mu.Lock()
+		defer fs.mu.Unlock()
 		if len(dirs) == 0 {
 			return nil, nil
 		}
